@@ -412,6 +412,10 @@ func NewWith(drivers []evt.Driver, p *Program, viol func(sig, desc string), obsF
 		opts = append(opts, ebu.WithPanicHandler(nil))
 	}
 	e.Bus = ebu.New(opts...)
+	if len(p.Ops)%4 == 1 {
+		// a bystander: a subscriber for the empty interface type, which no event of the program has
+		ebu.Subscribe(e.Bus, func(any) {})
+	}
 	if c.PanicHandler && c.PHBySetter {
 		e.Bus.SetPanicHandler(e.panicHandler)
 	}
